@@ -4,8 +4,8 @@ CONSTANTS
   NW = 1
   NT = 3
   NG = 3
-  KCodes = {0, 10003, 20504, 30001, 151515, 150100}
-  WIds = {5, 6}
+  KCodes = {0, 10003, 20504, 150100}
+  WIds = {5}
   LMode = "ones"
   ECodes = {0, 1}
   TCodes = {11,12,31}
